@@ -19,74 +19,114 @@ Proof.
   cbn [existsb fst snd]. rewrite IH. rewrite (Z.eqb_sym (fst a)), (Z.eqb_sym (snd a)). reflexivity.
 Qed.
 
-(* what an accepting run of verifyRawCerts went through, in the code's order *)
-Lemma verify_ok_inv p chain hashes :
-  verify_raw_certs p chain hashes = VOk ->
-  exists pre leaf, chain = pre ++ [leaf] /\
-    advertises hashes (x_hash leaf) = true /\ x_parse leaf = true /\ rsa_test p leaf = false /\
+(* what an accepting run of verifyRawCerts went through, in the code's order,
+   for any "cert uses RSA" test *)
+Lemma verify_with_ok_inv rsa p chain hashes :
+  verify_with rsa p chain hashes = VOk ->
+  exists leaf, inspected p chain = Some leaf /\
+    advertises hashes (x_hash leaf) = true /\ x_parse leaf = true /\ rsa leaf = false /\
     x_na leaf - x_nb leaf <= pMaxLife p /\ x_nb leaf <= 0 <= x_na leaf.
 Proof.
-  unfold verify_raw_certs. destruct (rev chain) as [|leaf r] eqn:Er; [discriminate|].
+  unfold verify_with. destruct (inspected p chain) as [leaf|]; [|discriminate].
   rewrite pinned_advertises.
   destruct (advertises hashes (x_hash leaf)) eqn:Ea; [|discriminate].
   destruct (x_parse leaf) eqn:Ep; cbn [negb]; [|discriminate].
-  destruct (rsa_test p leaf) eqn:Hs; [discriminate|].
+  destruct (rsa leaf) eqn:Hs; [discriminate|].
   destruct (Z.ltb_spec (pMaxLife p) (x_na leaf - x_nb leaf)) as [|Hl]; [discriminate|].
   destruct (Z.ltb_spec 0 (x_nb leaf)) as [|Hb]; cbn [orb]; [discriminate|].
   destruct (Z.ltb_spec (x_na leaf) 0) as [|Ha]; [discriminate|].
-  intros _. exists (rev r), leaf. split.
-  - rewrite <- (rev_involutive chain), Er. reflexivity.
-  - repeat split; try assumption; lia.
+  intros _. exists leaf. repeat split; try assumption; lia.
 Qed.
 
-(* the hypothesis the proof forces about the certificate's algorithm: the
-   code recognises RSA by six PKCS#1 v1.5 SignatureAlgorithm values only *)
-Definition rsa_recognised (p : params) (c : xcert) : Prop :=
-  pRsaRule p = 0 -> x_sig c <> 2 /\ (x_pubrsa c = true -> x_sig c = 1).
+Lemma verify_ok_inv p chain hashes :
+  verify_raw_certs p chain hashes = VOk ->
+  exists leaf, inspected p chain = Some leaf /\
+    advertises hashes (x_hash leaf) = true /\ x_parse leaf = true /\ is_rsa leaf = false /\
+    x_na leaf - x_nb leaf <= pMaxLife p /\ x_nb leaf <= 0 <= x_na leaf.
+Proof. apply verify_with_ok_inv. Qed.
 
-Lemma rsa_test_false p c : rsa_recognised p c -> rsa_test p c = false -> is_rsa c = false.
+(* the hypothesis the proof forces about the chain: the certificate that is
+   inspected is the server's (the first): either the verifier looks at
+   rawCerts[0], or the chain has at most one entry *)
+Definition inspects_server_cert (p : params) (chain : list xcert) : Prop :=
+  pLeafLast p = 0 \/ (length chain <= 1)%nat.
+
+Lemma inspected_first p chain : inspects_server_cert p chain -> inspected p chain = hd_error chain.
 Proof.
-  unfold rsa_recognised, rsa_test. intros Hr Ht.
-  destruct (Z.eqb_spec (pRsaRule p) 0) as [E|]; [|exact Ht].
-  destruct (Hr E) as (Hpss & Hkey). unfold is_rsa. rewrite Ht.
-  destruct (x_pubrsa c); [specialize (Hkey eq_refl); apply Z.eqb_neq in Ht; contradiction|].
-  destruct (Z.eqb_spec (x_sig c) 2); [contradiction|]. reflexivity.
+  unfold inspects_server_cert, inspected. intros [E | Hl].
+  - rewrite E. reflexivity.
+  - destruct (pLeafLast p =? 0); [reflexivity|]. destruct chain as [|a [|b r]]; [reflexivity | reflexivity|].
+    cbn in Hl. lia.
 Qed.
 
-Lemma accept_diag_ok p c hashes :
-  pMaxLife p <= spec_max_validity -> rsa_recognised p c ->
-  verify_raw_certs p [c] hashes = VOk -> accept_diag [c] hashes = [].
+Lemma accept_diag_ok p chain hashes :
+  pMaxLife p <= spec_max_validity -> inspects_server_cert p chain ->
+  verify_raw_certs p chain hashes = VOk -> accept_diag chain hashes = [].
 Proof.
-  intros Hm Hrec Hv. apply verify_ok_inv in Hv as (pre & leaf & E & Ha & Hp & Hs & Hl & Hb1 & Hb2).
-  assert (pre = [] /\ leaf = c) as (-> & ->).
-  { destruct pre as [|a [|b r]]; cbn in E.
-    - inversion E. auto.
-    - discriminate.
-    - discriminate. }
-  unfold accept_diag. rewrite Ha, Hp. cbn [negb].
-  rewrite (rsa_test_false p c Hrec Hs).
+  intros Hm Hi Hv. apply verify_ok_inv in Hv as (leaf & E & Ha & Hp & Hs & Hl & Hb1 & Hb2).
+  rewrite (inspected_first p chain Hi) in E. destruct chain as [|c r]; [discriminate|].
+  cbn in E. inversion E; subst leaf.
+  unfold accept_diag. rewrite Ha, Hp, Hs. cbn [negb].
   destruct (Z.leb_spec (x_na c - x_nb c) spec_max_validity); [|lia]. cbn [negb].
   destruct (Z.leb_spec (x_nb c) 0); [|lia]. destruct (Z.leb_spec 0 (x_na c)); [|lia]. reflexivity.
 Qed.
-
-Lemma verify_empty p hashes : verify_raw_certs p [] hashes = VNoCert.
-Proof. reflexivity. Qed.
 
 Lemma z_of_vres_0 r : z_of_vres r = 0 -> r = VOk.
 Proof. destruct r; cbn; intros; try discriminate; reflexivity. Qed.
 
 Lemma monitor_verify_ok p chain hashes :
-  pMaxLife p <= spec_max_validity -> (length chain <= 1)%nat -> Forall (rsa_recognised p) chain ->
+  pMaxLife p <= spec_max_validity -> inspects_server_cert p chain ->
   monitor_verify chain hashes (z_of_vres (verify_raw_certs p chain hashes)) = [].
 Proof.
-  intros Hm Hl Hr. unfold monitor_verify.
+  intros Hm Hi. unfold monitor_verify.
   destruct (Z.eqb_spec (z_of_vres (verify_raw_certs p chain hashes)) 0) as [E|]; [|reflexivity].
-  apply z_of_vres_0 in E. destruct chain as [|c [|c2 r]].
-  - rewrite verify_empty in E. discriminate.
-  - inversion Hr; subst. eapply accept_diag_ok; eassumption.
-  - cbn in Hl. lia.
+  apply z_of_vres_0 in E. eapply accept_diag_ok; eassumption.
 Qed.
 
+(* with the pinned tree's choice of certificate the clause fails: the chain
+   [unpinned, pinned] is accepted *)
+Definition ex_unpinned : xcert := mkX 1 true false 0 (-3600 * SEC) (3600 * SEC).
+Definition ex_pinned : xcert := mkX 2 true false 0 (-3600 * SEC) (3600 * SEC).
+
+Lemma verify_chain_refuted_gen p : pLeafLast p <> 0 -> pMaxLife p = spec_max_validity ->
+  verify_raw_certs p [ex_unpinned; ex_pinned] [(SHA2_256, 2)] = VOk /\
+  advertises [(SHA2_256, 2)] (x_hash ex_unpinned) = false /\
+  monitor_verify [ex_unpinned; ex_pinned] [(SHA2_256, 2)]
+    (z_of_vres (verify_raw_certs p [ex_unpinned; ex_pinned] [(SHA2_256, 2)])) <> [].
+Proof.
+  intros Hr Hm.
+  assert (E : verify_raw_certs p [ex_unpinned; ex_pinned] [(SHA2_256, 2)] = VOk).
+  { unfold verify_raw_certs, verify_with, inspected. apply Z.eqb_neq in Hr. rewrite Hr, Hm.
+    vm_compute. reflexivity. }
+  split; [exact E|]. split; [reflexivity|]. rewrite E. vm_compute. discriminate.
+Qed.
+
+(* ---- the RSA rule: what the tree did before the repair --------------------- *)
+(* six PKCS#1 v1.5 SignatureAlgorithm values only *)
+Definition old_rsa_test (c : xcert) : bool := x_sig c =? 1.
+
+(* the four witnesses of the repaired defect (fixed corpus cases of the harness):
+   RSA key + RSA-PSS signature, RSA key under an ECDSA signature, each as
+   presented to verifyRawCerts and to a real Dial *)
+Definition corpus_rsa_pss : xcert := mkX 1 true true 2 (-3600 * SEC) (86400 * SEC).
+Definition corpus_rsa_key_ecdsa_sig : xcert := mkX 1 true true 0 (-3600 * SEC) (86400 * SEC).
+
+Lemma rsa_regression_detected_gen p c : pMaxLife p = spec_max_validity ->
+  c = corpus_rsa_pss \/ c = corpus_rsa_key_ecdsa_sig ->
+  verify_with old_rsa_test p [c] [(SHA2_256, 1)] = VOk /\
+  monitor_verify [c] [(SHA2_256, 1)] (z_of_vres (verify_with old_rsa_test p [c] [(SHA2_256, 1)])) <> [] /\
+  verify_raw_certs p [c] [(SHA2_256, 1)] = VRsa.
+Proof.
+  intros Hm Hc.
+  assert (Hi : inspected p [c] = Some c) by (unfold inspected; destruct (pLeafLast p =? 0); reflexivity).
+  assert (E : verify_with old_rsa_test p [c] [(SHA2_256, 1)] = VOk).
+  { unfold verify_with. rewrite Hi, Hm. destruct Hc as [-> | ->]; vm_compute; reflexivity. }
+  split; [exact E|]. split.
+  - rewrite E. destruct Hc as [-> | ->]; vm_compute; discriminate.
+  - unfold verify_raw_certs, verify_with. rewrite Hi. destruct Hc as [-> | ->]; vm_compute; reflexivity.
+Qed.
+
+(* ---- the dialer -------------------------------------------------------------- *)
 Lemma confirm_spec sent rcvd : confirm sent rcvd = true <-> forall h, In h sent -> In h rcvd.
 Proof.
   unfold confirm. rewrite forallb_forall. split; intros Hx h Hin.
@@ -105,31 +145,13 @@ Proof.
 Qed.
 
 Lemma monitor_dial_ok p chain addr dec srv :
-  pMaxLife p <= spec_max_validity -> (length chain <= 1)%nat -> Forall (rsa_recognised p) chain ->
+  pMaxLife p <= spec_max_validity -> inspects_server_cert p chain ->
   monitor_dial chain addr dec srv (dial p chain addr dec srv) = [].
 Proof.
-  intros Hm Hl Hr. unfold monitor_dial.
+  intros Hm Hi. unfold monitor_dial.
   destruct (Z.eqb_spec (dial p chain addr dec srv) 0) as [E|]; [|reflexivity].
   apply dial_connected_inv in E as (Hv & -> & Hc).
-  destruct chain as [|c [|c2 r]].
-  - rewrite verify_empty in Hv. discriminate.
-  - inversion Hr; subst. rewrite (accept_diag_ok p c addr Hm) by assumption.
-    cbn [andb]. replace (forallb (fun h => mh_mem h srv) addr) with true; [reflexivity|].
-    symmetry. apply forallb_forall. intros h Hin. apply mh_mem_In, Hc, Hin.
-  - cbn in Hl. lia.
-Qed.
-
-(* with the complete RSA test nothing has to be assumed about the certificate *)
-Lemma rsa_rule1_recognised p chain : pRsaRule p <> 0 -> Forall (rsa_recognised p) chain.
-Proof. intros Hr. apply Forall_forall. intros c _ E. contradiction. Qed.
-
-(* with the pinned tree's test the clause fails *)
-Lemma verify_refuted_gen p : pRsaRule p = 0 -> pMaxLife p = spec_max_validity ->
-  exists c hashes, verify_raw_certs p [c] hashes = VOk /\ is_rsa c = true /\
-    monitor_verify [c] hashes (z_of_vres (verify_raw_certs p [c] hashes)) <> [].
-Proof.
-  intros Hr Hm. exists (mkX 1 true true 2 (-3600 * SEC) (86400 * SEC)), [(SHA2_256, 1)].
-  assert (E : verify_raw_certs p [mkX 1 true true 2 (-3600 * SEC) (86400 * SEC)] [(SHA2_256, 1)] = VOk).
-  { unfold verify_raw_certs, rsa_test. rewrite Hr, Hm. vm_compute. reflexivity. }
-  split; [exact E|]. split; [reflexivity|]. rewrite E. vm_compute. discriminate.
+  rewrite (accept_diag_ok p chain addr Hm Hi Hv).
+  cbn [andb]. replace (forallb (fun h => mh_mem h srv) addr) with true; [reflexivity|].
+  symmetry. apply forallb_forall. intros h Hin. apply mh_mem_In, Hc, Hin.
 Qed.
